@@ -19,7 +19,7 @@ ASSUMPTIONS = ["grid model: contiguous steps from ts[0]; every step but the last
 REQUIRED_COUNTERS = ["steps", "outputs_inside_step", "outputs_on_grid", "variant_shared_outputs", "ts_list", "ts_f32",
                      "y_f32", "several_outputs_one_step", "dt_larger_than_T", "outputs_inside_clipped_last_step",
                      "first_gap_smaller_than_dt", "default_dtype_float32_cases", "list_ts_f64_state_under_default_f32",
-                     "via_sdeint_adjoint", "float32_brownian_float64_state"]
+                     "via_sdeint_adjoint", "float32_brownian_float64_state", "y0_non_contiguous"]
 THRESHOLDS = {"interp_f64": 1e-13, "interp_f32": 2e-5}
 
 
@@ -73,6 +73,14 @@ def run_case(case):
     tsl = _mk_ts(rng, t0, T, layout, dt)
     entropy = rng.randrange(1, 10 ** 9)
     y0 = torch.randn(B, d, dtype=ydt, generator=torch.Generator().manual_seed(case["rseed"]))
+    # the initial state may be any tensor layout (a transposed view, a stride-0 expansion); inputs are never modified
+    layout_y0 = rng.choice(["contiguous", "contiguous", "transposed_view", "expanded"])
+    if layout_y0 == "transposed_view":
+        y0 = y0.t().contiguous().t()
+    elif layout_y0 == "expanded":
+        y0 = y0[:1].expand(B, d)
+    cnt["y0_non_contiguous"] = int(not y0.is_contiguous())
+    y0_before = y0.clone()
 
     def as_ts(lst):
         if tdt == "list":
@@ -111,6 +119,8 @@ def run_case(case):
 
     ys, pr, ts_t = run(tsl)
     steps = pr.steps
+    if not torch.equal(y0, y0_before):
+        viol.append({"mechanism": "input_state_modified", "detail": f"y0 ({layout_y0}) changed during sdeint"})
     ctx = f"cell={zoo.cell_name(cell)} ts={tsl} dt={dt} tdt={tdt} ydt={ydt} B={B} d={d} f32_bm={bm_f32}"
     cnt["steps"] = len(steps)
     cnt["ts_list"] = int(tdt in ("list", "tuple"))
